@@ -21,6 +21,8 @@ from concurrent.futures import ThreadPoolExecutor
 
 ROOT = os.path.dirname(os.path.dirname(os.path.abspath(__file__)))
 REPO = os.environ.get("VERIF_REPO", "/repo")
+# where evidence and replay files go (the self-test on scratch copies of the repository redirects them)
+OUTDIR = os.environ.get("VERIF_OUTDIR", ROOT)
 JAR = "/opt/veriftools/tla/tla2tools.jar:/opt/veriftools/tla/CommunityModules-deps.jar"
 NCPU = os.cpu_count() or 4
 MODPATH = "github.com/oasisprotocol/curve25519-voi"
@@ -242,8 +244,8 @@ class Run:
         self.nviol = getattr(self, "nviol", 0) + 1
         if len(self.violations) >= 5:
             return      # the first five are written out; the count is kept in the evidence
-        os.makedirs(os.path.join(ROOT, "replays"), exist_ok=True)
-        path = os.path.join(ROOT, "replays", "%s-%d-%d.json" % (self.prop, self.seed, len(self.violations) + 1))
+        os.makedirs(os.path.join(OUTDIR, "replays"), exist_ok=True)
+        path = os.path.join(OUTDIR, "replays", "%s-%d-%d.json" % (self.prop, self.seed, len(self.violations) + 1))
         body = {"property": self.prop, "what": what, "key": k, "tier": self.tier, "seed": self.seed}
         if event is not None:
             body["event"] = event
@@ -266,8 +268,8 @@ class Run:
         ev = {"property_id": self.prop, "tier": self.tier, "seed": self.seed, "level": self.level,
               "coverage": c, "assumptions": self.assumptions, "wall_s": round(time.time() - self.t0, 2),
               "violations": getattr(self, "nviol", 0)}
-        os.makedirs(os.path.join(ROOT, "evidence"), exist_ok=True)
-        json.dump(ev, open(os.path.join(ROOT, "evidence", self.prop + ".json"), "w"), indent=1)
+        os.makedirs(os.path.join(OUTDIR, "evidence"), exist_ok=True)
+        json.dump(ev, open(os.path.join(OUTDIR, "evidence", self.prop + ".json"), "w"), indent=1)
         shutil.rmtree(self.scratch, ignore_errors=True)
         if rc is None:
             rc = 1 if self.violations else 0
